@@ -8,7 +8,7 @@ order, comparison) breaks a proof obligation.
 Translation (Rust expression over `F: Float` -> Coq term over `binary_float prec emax`, round to nearest even):
     a + b, a - b, a * b, a / b   ->  Bplus / Bminus / Bmult / Bdiv mode_NE a b        (left associative, usual precedence)
     -a                           ->  Bopp a
-    a <= b, a < b                ->  Bleb a b, Bltb a b          (a >= b, a > b are swapped)
+    a <= b, a < b                ->  Bleb a b, Bltb a b          (a >= b, a > b are swapped);   c && d  ->  andb c d
     self.f, self.g.f, local x    ->  variable f, g_f, x
     F::one(), F::from(1.).unwrap() -> Bone;  F::zero() -> B754_zero false;  F::infinity() -> B754_infinity false
     x.sqrt()                     ->  Bsqrt mode_NE x             (correctly rounded IEEE operation)
@@ -26,7 +26,7 @@ class Unsupported(Exception):
 
 
 # ---------------------------------------------------------------- expression parser (Pratt)
-BIN = {"*": 6, "/": 6, "+": 5, "-": 5, "<=": 3, "<": 3, ">=": 3, ">": 3, "==": 3, "!=": 3}
+BIN = {"*": 6, "/": 6, "+": 5, "-": 5, "<=": 3, "<": 3, ">=": 3, ">": 3, "==": 3, "!=": 3, "&&": 2}
 
 
 class P:
@@ -187,6 +187,10 @@ class Lower:
             op, a, b = e[1], e[2], e[3]
             if op in (">=", ">"):
                 op, a, b = {">=": "<=", ">": "<"}[op], b, a
+            if op == "&&":
+                x = self.go(a)
+                y = self.go(b)
+                return "(andb %s %s)" % (x, y)
             f = {"+": "Bplus mode_NE", "-": "Bminus mode_NE", "*": "Bmult mode_NE", "/": "Bdiv mode_NE", "<=": "Bleb", "<": "Bltb"}.get(op)
             if f is None:
                 raise Unsupported("operator %s" % op)
@@ -282,6 +286,23 @@ def sel_return_elem(k):
     return f
 
 
+def sel_tail_elem(k):
+    """k-th element of the array literal that is the trailing expression of the function body"""
+    def f(body):
+        t = sel_tail(body)
+        v = vals(t)
+        if not v or v[0] != "[" or v[-1] != "]":
+            raise Unsupported("the trailing expression is not an array literal")
+        inner = t[1:-1]
+        cuts = split_depth0(inner, (",",))
+        elems, start = [], 0
+        for c in cuts + [len(inner)]:
+            if start < c: elems.append(inner[start:c])
+            start = c + 1
+        return elems[k]
+    return f
+
+
 def sel_assign(lhs):
     def f(body):
         v = vals(body)
@@ -366,6 +387,11 @@ SITES = [
     ("frechet_sample", "frechet.rs", "Frechet", "sample", sel_tail),
     ("unit_disc_accept", "unit_disc.rs", "UnitDisc", "sample", sel_if_break),
     ("unit_ball_accept", "unit_ball.rs", "UnitBall", "sample", sel_if_break),
+    ("unit_circle_sum", "unit_circle.rs", "UnitCircle", "sample", sel_assign(["sum"])),
+    ("unit_circle_accept", "unit_circle.rs", "UnitCircle", "sample", sel_if_break),
+    ("unit_circle_diff", "unit_circle.rs", "UnitCircle", "sample", sel_assign(["diff"])),
+    ("unit_circle_c0", "unit_circle.rs", "UnitCircle", "sample", sel_tail_elem(0)),
+    ("unit_circle_c1", "unit_circle.rs", "UnitCircle", "sample", sel_tail_elem(1)),
     ("unit_sphere_sum", "unit_sphere.rs", "UnitSphere", "sample", sel_assign(["sum"])),
     ("unit_sphere_reject", "unit_sphere.rs", "UnitSphere", "sample", sel_if_stmt("continue")),
     ("unit_sphere_factor", "unit_sphere.rs", "UnitSphere", "sample", sel_assign(["factor"])),
@@ -424,7 +450,7 @@ def gen_flprog(repo):
             ast = parse_all(toks)
             lo = Lower()
             term = lo.go(ast)
-            is_bool = ast[0] == "bin" and ast[1] in ("<=", "<", ">=", ">")
+            is_bool = ast[0] == "bin" and ast[1] in ("<=", "<", ">=", ">", "&&")
             params = " ".join(lo.params)
             out.append("(* src/%s %s::%s :  %s *)" % (rel, impl_sub, fn, " ".join(vals(toks)).replace("*)", "* )")))
             out.append("Definition src_%s (prec emax : Z) (Hp : Prec_gt_0 prec) (Hpe : Prec_lt_emax prec emax)%s : %s :=\n  %s.\n"
